@@ -8,11 +8,13 @@ Lean-compiled checker (`rc_*` ops of mpdrv, soundness theorems in Props/C29.lean
   within deg*err of r_i; pairwise disjoint inclusion discs => one-to-one matching with all true roots
   (repeated / unresolved roots: matching `undecided`); for real-coefficient polynomials with the default
   cleanup: real roots first in non-decreasing order, complex roots as adjacent conjugate pairs
-  (partners identified through the disjoint discs).
+  (partners identified through the disjoint discs; when only the discs scaled by max(1,|root|) are certified — known
+  finding R3 — those are used).  Input classes include several conjugate pairs on one vertical line (shared real part).
 * the post-processing model (cleanup / sort / rounding) is compared bit-for-bit with the values the real
   code holds before and after (captured through the sort-key calls).
 * findroot (verify=True): |f(x)|^2 <= tol re-decided exactly for polynomial / rational maps with tol the
-  default 2^(-prec-9); bracketing solvers: result inside the bracket; mnewton on (x-a)^m q(x): returns, with
+  default 2^(-prec-9); bracketing solvers: result inside the bracket (exact comparison of the returned dyadic value
+  with the bracket ends), on monotone and non-monotone sign-change brackets (1, 3 or 5 roots inside, roots outside); mnewton on (x-a)^m q(x): returns, with
   |x-a| <= 2^(4-p/m), at dps 15 and above 15, with numerical and analytic derivatives.
 * multiplicity: equals the exact multiplicity (rc_multexact) for m below the documented cut-off.
 * decision-logic models (multiplicity loop, MNewton keyword selection, MNewton step outcome, verify test)
@@ -63,12 +65,15 @@ def clear_den(p):
     return [[int(c[0] * d), int(c[1] * d)] for c in p]
 
 
-def gen_polyroots(g, quick):
+def gen_polyroots(g, quick, kind=None):
     r = g.r
+    forced = kind
     deg = r.choice([1, 2, 2, 3, 3, 4, 5, 6, 7, 8, 10, 12, 15, 20]) if not quick else r.choice([1, 2, 3, 3, 4, 5, 6, 7, 8, 10, 12, 16, 20])
     kind = r.choice(["int_random", "int_random", "int_roots", "rat_roots", "gauss_random", "gauss_roots", "rational_coeffs",
                      "conj_shared_im", "conj_shared_im", "conj_mixed", "clustered", "repeated", "trailing_zero",
                      "leading_zero", "scaled", "unit_circle", "degenerate", "big_coeffs", "large_roots"])
+    if forced is not None:
+        kind = forced
     real_coeffs = True
     if kind == "int_random":
         m = r.choice([3, 9, 100, 10 ** 6])
@@ -109,6 +114,36 @@ def gen_polyroots(g, quick):
         nreal = r.randint(0, 3)
         roots += [G(x) for x in r.sample(range(-9, 10), nreal)]
         cs = clear_den(poly_from_roots(roots))
+    elif kind == "conj_shared_re":
+        # several conjugate pairs on ONE vertical line Re z = a: factors (x-a)^2 + b_k^2 with a common a and distinct b_k.
+        # The real parts of all these roots agree (up to rounding noise), so only |Im| tells the partners apart.
+        # Optionally a second vertical line (sharing one |Im| with the first, the transposed situation), real roots
+        # (possibly one on the line itself), a leading factor.
+        a = r.choice([r.choice([-9, -7, -5, -3, -2, -1, 1, 2, 3, 4, 6, 8]), r.choice([-9, -7, -5, -3, -2, -1, 1, 2, 3, 4, 6, 8]),
+                      Fraction(r.choice([-7, -5, -3, -1, 1, 3, 5, 9]), r.choice([2, 4, 8])),      # dyadic, exactly representable
+                      Fraction(r.choice([-7, -5, -2, -1, 1, 2, 4, 5]), r.choice([3, 5, 7])),      # not representable
+                      r.choice([-1000, 100, 12345]), 0])
+        npairs = r.randint(2, 5)
+        pool = [Fraction(k) for k in range(1, 10)] if r.random() < 0.7 else [Fraction(k, 2) for k in range(1, 14)]
+        bs = r.sample(pool, npairs)
+        roots = []
+        for b in bs:
+            roots += [G(a, b), G(a, -b)]
+        if r.random() < 0.3:
+            a2 = a + r.choice([-3, -1, 1, 2, 5])
+            bs2 = [r.choice(bs)] + ([r.choice(pool)] if r.random() < 0.5 else [])
+            for b in set(bs2):
+                roots += [G(a2, b), G(a2, -b)]
+        nreal = r.randint(0, 3)
+        reals = r.sample(range(-9, 10), nreal)
+        if nreal and r.random() < 0.3:
+            reals[0] = a                                                                       # a real root on the line
+        roots += [G(x) for x in reals]
+        g.note("shared_re_a", "zero" if a == 0 else ("int" if Fraction(a).denominator == 1 else
+                                                      ("dyadic" if Fraction(a).denominator in (2, 4, 8) else "rounded")))
+        g.note("shared_re_pairs", npairs)
+        g.note("shared_re_reals", nreal)
+        cs = clear_den(poly_from_roots(roots, r.choice([1, 1, 1, 2, -3])))
     elif kind == "clustered":
         k = r.randint(2, min(5, max(2, deg)))
         sep = r.choice([10, 100, 1000, 10 ** 5])
@@ -169,6 +204,10 @@ def gen_polyroots(g, quick):
     elif v < 0.5:
         kw["maxsteps"] = r.choice([100, 200])
         kw["extraprec"] = r.choice([prec, 3 * prec])
+    if forced == "conj_shared_re" and "maxsteps" not in kw and r.random() < 0.6:
+        # the default maxsteps=50 / extraprec=10 often end in NoConvergence for 4-5 pairs on a line (no result, nothing decided)
+        kw["maxsteps"] = 200
+        kw.setdefault("extraprec", r.choice([prec, 2 * prec]))
     g.note("polyroots_kind", kind)
     g.note("polyroots_deg", max(0, len(cs) - 1))
     g.note("polyroots_kw", ",".join(sorted(kw)) or "default")
@@ -337,6 +376,66 @@ def gen_findroot(g, quick):
     return job
 
 
+def gen_bracket_nonmono(g):
+    """brackets with a sign change on which f is NOT monotone: f has 3..5 simple real roots, the ends of the bracket lie
+    anywhere in two gaps between consecutive roots (or beyond the outermost roots) such that an odd number (1, 3 or 5)
+    of roots is inside and at least one root is outside whenever possible; the ends are not confined to the
+    half-gaps next to the enclosed root, so local extrema of f lie inside the bracket.  Every bracketing solver is run
+    on the same (f, bracket, precision).  Returns a list of jobs."""
+    r = g.r
+    deg = r.choice([3, 3, 3, 4, 5, 5])
+    if r.random() < 0.75:
+        roots = sorted(Fraction(x) for x in r.sample(range(-20, 21), deg))
+    else:
+        roots = sorted({Fraction(r.randint(-40, 40), r.choice([2, 3, 4])) for _ in range(deg)})
+        deg = len(roots)
+    cs = clear_den(poly_from_roots([G(x) for x in roots], r.choice([1, 1, 2, -1])))
+    # gaps 0..deg: gap k lies between roots[k-1] and roots[k]
+    inside = r.choice([1, 1, 1, 3] if deg >= 4 else [1, 1, 1, 1, 3]) if deg >= 3 else 1
+    inside = min(inside, deg if deg % 2 else deg - 1)
+    i = r.randint(0, deg - inside)
+    jgap = i + inside
+
+    def point(k):
+        t = Fraction(r.randint(1, 15), 16)
+        if k == 0:
+            return roots[0] - r.choice([Fraction(r.randint(1, 16), 4), Fraction(r.randint(1, 200), 8)])
+        if k == deg:
+            return roots[-1] + r.choice([Fraction(r.randint(1, 16), 4), Fraction(r.randint(1, 200), 8)])
+        return roots[k - 1] + (roots[k] - roots[k - 1]) * t
+    a, b = point(i), point(jgap)
+    # dyadic ends (exactly representable at every precision used): round to multiples of 1/64 staying inside the gaps
+    a = Fraction(math.floor(a * 64), 64)
+    b = Fraction(math.ceil(b * 64), 64)
+    if any(x == a or x == b for x in roots) or not (a < b):
+        return []
+    nin = len([x for x in roots if a < x < b])
+    if nin % 2 == 0:
+        return []
+    if r.random() < 0.2:
+        a, b = b, a
+    if r.random() < 0.2:
+        k = r.randint(1, 4)
+        f = {"type": "ratio", "num": {"type": "poly", "coeffs": cs}, "den": {"type": "poly", "coeffs": [[1, 0], [0, 0], [k * k, 0]]}}
+    else:
+        f = {"type": "poly", "coeffs": cs, "form": r.choice(["horner", "power"])}
+    prec = r.choice([30, 53, 53, 64, 100, 113, 150, 200, 300])
+    verify = r.random() < 0.9
+    g.note("nonmono_deg", deg)
+    g.note("nonmono_roots_inside", nin)
+    g.note("nonmono_roots_outside", deg - nin)
+    g.note("nonmono_ftype", f["type"])
+    g.note("nonmono_prec", prec)
+    jobs = []
+    for solver in SOLVERS_BRACKET:
+        jobs.append({"kind": "findroot", "prec": prec, "fam": "bracket_nonmono", "timeout": 20, "verify": verify, "f": f,
+                     "solver": solver, "x0": [[frac_tok(a), 0], [frac_tok(b), 0]], "bracket": True,
+                     "roots_inside": nin, "roots_outside": deg - nin})
+        g.note("findroot_family", "bracket_nonmono")
+        g.note("findroot_solver", solver)
+    return jobs
+
+
 def gen_mnewton(g, dps):
     """the property's mnewton clause: (x-a)^m q(x), nearby start, numerical or analytic derivatives"""
     r = g.r
@@ -439,6 +538,9 @@ def order_check(roots_items, tol):
 class Check:
     def __init__(self, seed, quick, patches=()):
         self.g = Gen(seed)
+        # second stream (derived from the same seed) for the input classes added later; the cases of the first
+        # stream are exactly those generated before the classes were added
+        self.g2 = Gen("C29/classes-2/%d" % seed)
         self.quick = quick
         self.patches = tuple(patches)
         self.failing = []
@@ -467,6 +569,8 @@ class Check:
     def run_polyroots(self, n, extra_jobs=()):
         jobs = list(extra_jobs) + [gen_polyroots(self.g, self.quick) for _ in range(n)] + \
             [gen_cleanup_boundary(self.g) for _ in range(n // 8)]
+        # conjugate pairs with a shared real part (vertical lines of roots)
+        jobs += [gen_polyroots(self.g2, self.quick, kind="conj_shared_re") for _ in range((n + 6) // 7)]
         for i, j in enumerate(jobs):
             j["id"] = i
         res = RO.run_jobs(jobs, self.patches)
@@ -562,13 +666,24 @@ class Check:
                           {"job": jj, "roots": rr["roots"], "err": rr["err"], "driver": a})
             elif incl == "undecided":
                 self.undecided += 1
+            otol = tol
+            if match == "ok" and incl == "fail":
+                # the discs of radius deg*err are not certified, but those of radius deg*err*max(1,|root|) may be
+                # (known finding R3): the ordering clause is then decided with the larger certified radius
+                sa = scaled.get(j["id"], "R:?:?:?:?").split(":")
+                if sa[1:4] == ["1", "ok", "ok"]:
+                    M = max([Fraction(1)] + [abs(z[0]) + abs(z[1]) for z in (item_frac(it) for it in rr["roots"])])
+                    otol = tol * M
+                    incl = "ok"
+                    self.st("polyroots:order-decided-with-scaled-radius")
             if match != "ok" or incl != "ok":
                 if incl == "ok":
                     self.undecided += 1
                 continue
             # ordering, real coefficients, default cleanup
             if j.get("real_coeffs") and j["kw"].get("cleanup", True) and all(c[0] == "R" for c in rr["coeffs_raw"]):
-                v, detail = order_check(rr["roots"], tol)
+                v, detail = order_check(rr["roots"], otol)
+                self.st("polyroots[%s]:order=%s" % (j["tag"], v))
                 self.st("polyroots:order=" + v)
                 if v == "fail":
                     self.fail("polynomials.polyroots:order", "documented order violated: " + detail,
@@ -658,6 +773,9 @@ class Check:
 
     def run_findroot(self, n, n_mnewton):
         jobs = [gen_findroot(self.g, self.quick) for _ in range(n)]
+        # non-monotone functions on sign-change brackets, every bracketing solver on each (5 jobs per bracket)
+        for _ in range((n + 3) // 4):
+            jobs += gen_bracket_nonmono(self.g2)
         for dps in ([15, 16, 17, 20, 30, 50] if self.quick else [15, 16, 17, 18, 20, 25, 30, 40, 50, 90]):
             for _ in range(n_mnewton):
                 jobs.append(gen_mnewton(self.g, dps))
@@ -795,14 +913,26 @@ class Check:
             if a != impl:
                 self.dis.append({"name": "T1:rc_" + j["kind"], "op": j["kind"], "job": j, "impl": impl, "model": a})
 
+    def merged_hist(self):
+        h = {}
+        for src in (self.g.hist, self.g2.hist):
+            for k, d in src.items():
+                t = h.setdefault(k, {})
+                for a, b in d.items():
+                    t[a] = t.get(a, 0) + b
+        return h
+
     def result(self):
         cov = {
             "evaluations": self.evaluations,
             "distinct_nontrivial": len(self.distinct),
             "rule": "seeded structured generation: polyroots on degree 0..20 polynomials (integer / rational / Gaussian coefficients; "
-                    "distinct, clustered, repeated roots; conjugate pairs sharing |Im|; leading/trailing zeros; huge/small scales; "
+                    "distinct, clustered, repeated roots; conjugate pairs sharing |Im|; conjugate pairs sharing Re (several pairs "
+                    "on one vertical line, mixed with real roots); leading/trailing zeros; huge/small scales; "
                     "maxsteps/extraprec/cleanup/error variants; prec 30..300), findroot with every solver name on polynomial/rational "
-                    "functions and 2-3 dimensional systems (verify on/off, brackets with and without sign change, far and exact starts), "
+                    "functions and 2-3 dimensional systems (verify on/off, brackets with and without sign change, far and exact starts; "
+                    "all five bracketing solvers on sign-change brackets holding 1/3/5 roots of a non-monotone cubic..quintic or "
+                    "rational function with further roots outside), "
                     "mnewton on (x-a)^m q(x) at dps 15..50(90) with numeric/analytic derivatives, multiplicity on (x-a)^m q(x). "
                     "Non-trivial = the call returned a value (degree >= 1 for polyroots) that was decided by the driver",
             "samples": self.samples[:8],
@@ -811,7 +941,7 @@ class Check:
             "disagreements_checked": self.evaluations,
             "undecided": self.undecided,
             "outcome_histogram": dict(sorted(self.stats.items())),
-            "input_distribution": {k: {str(a): b for a, b in v.items()} for k, v in self.g.hist.items()},
+            "input_distribution": {k: {str(a): b for a, b in v.items()} for k, v in self.merged_hist().items()},
             "patches": list(self.patches),
         }
         return {"coverage": cov, "failing_inputs": self.failing, "disagreements": self.dis}
